@@ -13,7 +13,7 @@ use std::rc::Rc;
 pub static ENGINE: Engine = Engine {
     prop: "C05",
     level: "exploration",
-    rule: "API: every operand list of length 0..L over ALL functions of k variables (k=2: L=4, k=3: L=2; repeated and overlapping operands arise by construction) x every bound n in -2..L+2 x {aln, amn, exn}; every pair of lists (k=2: <=2 x <=2, thorough <=3 x <=2) x {count_leq, lt, geq, gt, eq}; the admissible extreme bounds i64::MIN+L and i64::MAX-L; a structured family of longer lists (5..9 operands over 6 variables, 3..5 vs 3..5 for list comparisons); oracle = per-assignment integer count. Language: every AST <= N nodes over a counting alphabet (5 comparisons x constants 0..3 x lists <= 3, list-vs-list, nesting, `<=` in counting position next to `<=` as connective) and a family of extreme constants around 2^63 and 2^64 (accepted => exact meaning, not representable => Err). distinct = distinct (operation, operand list, bound) + distinct formula texts",
+    rule: "API: every operand list of length 0..L over ALL functions of k variables (k=2: L=4, k=3: L=2; repeated and overlapping operands arise by construction) x every bound n in -2..L+2 x {aln, amn, exn}; every pair of lists (k=2: <=2 x <=2, thorough <=3 x <=2) x {count_leq, lt, geq, gt, eq}; the admissible extreme bounds i64::MIN+L and i64::MAX-L; a structured family of longer lists (5..9 operands over 6 variables, 3..5 vs 3..5 for list comparisons); oracle = per-assignment integer count. Language: every AST <= N nodes over a counting alphabet (5 comparisons x constants 0..3 x lists <= 3, list-vs-list, nesting, `<=` in counting position next to `<=` as connective) and a family of extreme constants around 2^63 and 2^64 (accepted => exact meaning, not representable => Err). Pool pairs: every pair of lists with <= 3 operands per side over a pool of five operand functions and <= 4 per side over a pool of three (same operands, different multiplicities) x the five list comparisons. distinct = distinct (operation, operand list, bound) + distinct formula texts",
     assumptions: &["reference counts in unbounded integers", "k <= 3, list length <= 4, AST size bound"],
     max_shards: 64,
     run,
@@ -368,8 +368,36 @@ fn text_sweep(ctx: &mut Ctx) {
     }
 }
 
+/// list-vs-list comparisons with up to three operands per side over a pool of five operand
+/// functions (so the same operand can occur with different multiplicities on the two sides),
+/// and with up to four per side over a pool of three
+fn pool_pairs(ctx: &mut Ctx) {
+    let sp = match Space::<usize>::by_interning(&syms_for(2)) {
+        Ok(s) => s,
+        Err(e) => {
+            ctx.violation(format!("{TAG} building operands"), e, case_const(2, &[], 0));
+            return;
+        }
+    };
+    let (a, b) = (sp.var_tt(0), sp.var_tt(1));
+    let mut idx = 1u64 << 40;
+    for (pool, maxlen) in [(vec![a, b, !a & sp.full, a & b, sp.full], 3usize), (vec![a, b, !a & sp.full], 4)] {
+        let lists: Vec<Vec<u64>> = crate::enumerate::lists_upto(pool.len(), maxlen).into_iter().map(|l| l.into_iter().map(|i| pool[i]).collect()).collect();
+        for l in &lists {
+            for r in &lists {
+                idx += 1;
+                if ctx.mine(idx) {
+                    check_lists(ctx, &sp, l, r);
+                    ctx.count("pool_list_pairs", 1);
+                }
+            }
+        }
+    }
+}
+
 fn run(ctx: &mut Ctx) {
     let th = ctx.thorough();
+    pool_pairs(ctx);
     api_sweep(ctx, 2, 4, if th { 3 } else { 2 }, 2);
     api_sweep(ctx, 3, 2, 1, 1);
     long_lists(ctx);
